@@ -4,6 +4,7 @@ XLoop
   * gives deterministic names to tasks the code under test creates without a name (asyncio's default
     'Task-N' counter is process-global, which would make state hashes differ between executions);
   * does not compute state hashes for choice points of a replayed prefix (the explorer never reads them);
+  * optional `quiescent_hook`: called whenever nothing is runnable at the current virtual instant;
   * optional `fifo_plumbing`: asyncio's own callbacks keep their FIFO order among themselves (see step());
   * optional partial-order reduction: `independent(handle) -> bool` may declare a runnable callback
     independent of every other transition that can happen before it runs (typically asyncio plumbing
@@ -26,6 +27,7 @@ class XLoop(vloop.VLoop):
         self.fifo_plumbing = False
         self.reduced_steps = 0
         self._hidden = ()
+        self.quiescent_hook = None  # called when nothing is runnable at the current instant (before time advances)
 
     def create_task(self, coro, *, name=None, context=None):
         if name is None:
@@ -64,6 +66,10 @@ class XLoop(vloop.VLoop):
         plumbing) keep asyncio's FIFO order among themselves -- only the oldest one competes with the task steps.
         Real asyncio never reorders two queued callbacks; the explorer's freedom models unknown I/O latency of the
         harness bodies, which are all task steps.  `independent`: see module docstring (applied to the oldest one)."""
+        if self.quiescent_hook is not None:
+            self._due_timers_to_ready()
+            if not any(not h._cancelled for h in self._ready):
+                self.quiescent_hook()
         ind = self.independent
         if ind is None and not self.fifo_plumbing:
             return super().step()
